@@ -32,6 +32,9 @@ func (p *Program) axiomTerms() []axiomTerm {
 	st := newState()
 	for _, a := range p.specs.Axioms {
 		env := &SpecEnv{e: e, st: st, old: st, vars: map[string]Value{}, what: "axiom " + a.Name}
+		if pk := p.pkgs[a.Pkg]; pk != nil && a.Pkg != "" {
+			env.pkg = pk.Types
+		}
 		t := env.evalBool(a.Expr)
 		fs := map[string]bool{}
 		funcNames(t, fs)
@@ -68,7 +71,7 @@ func (p *Program) buildQuery(o *Obligation, wantModel bool) string {
 			// include when the axiom shares a spec function with the query
 			hit := false
 			for f := range ax.funcs {
-				if strings.HasPrefix(f, "spec!") && used[f] {
+				if (strings.HasPrefix(f, "spec!") || strings.HasPrefix(f, "global!")) && used[f] {
 					hit = true
 					break
 				}
@@ -106,6 +109,22 @@ func (p *Program) buildQuery(o *Obligation, wantModel bool) string {
 		}
 	}
 	// type ids and global references are pairwise distinct, globals non-nil
+	strGlobals := map[string]bool{}
+	var findStr func(t *Term)
+	findStr = func(t *Term) {
+		if t.Op == "app" && strings.HasPrefix(t.Name, "global!") && t.Sort != SInt {
+			strGlobals[t.Name] = true
+		}
+		for _, a := range t.Args {
+			findStr(a)
+		}
+	}
+	for _, a := range asserts {
+		findStr(a)
+	}
+	for _, a := range extra {
+		findStr(a)
+	}
 	var tids, globs []*Term
 	var names []string
 	for f := range used {
@@ -117,6 +136,9 @@ func (p *Program) buildQuery(o *Obligation, wantModel bool) string {
 			tids = append(tids, mkApp(f, SInt))
 		}
 		if strings.HasPrefix(f, "global!") || strings.HasPrefix(f, "func!") {
+			if strGlobals[f] {
+				continue
+			}
 			globs = append(globs, mkApp(f, SInt))
 		}
 	}
@@ -214,6 +236,9 @@ func runSolver(ctx context.Context, sc solverCfg, file string, timeoutS int) sol
 	s := out.String()
 	first := strings.TrimSpace(strings.SplitN(s, "\n", 2)[0])
 	st := "unknown"
+	if strings.HasPrefix(first, "(error") {
+		st = "error"
+	}
 	switch first {
 	case "unsat":
 		st = "unsat"
@@ -319,6 +344,11 @@ func (p *Program) solveOne(dir string, idx int, o *Obligation, timeoutS int, all
 		o.Model = parseModel(final.out)
 	default:
 		o.Status = "unknown"
+		for _, r := range got {
+			if r.status == "error" && r.backend == "z3-new" {
+				o.Status = "solver-error"
+			}
+		}
 		var outs []string
 		for _, r := range got {
 			outs = append(outs, r.backend+": "+strings.TrimSpace(firstLines(r.out, 3)))
